@@ -2,7 +2,7 @@
    This file holds the part of C02 that is logic of the Imports container (model/Imports.v); the
    binding analysis of whole modules is the executing falsifier's job (see DESIGN.md, C02 residual). *)
 From Coq Require Import ZArith.
-From DMCG Require Import Imports ImportsProofs.
+From DMCG Require Import Imports ImportsProofs HintImports HintImportsProofs HintImportTable.
 Open Scope N_scope.
 
 (* for every history of append / remove calls in which each remove matches a pair that is currently
@@ -32,6 +32,25 @@ Example C02_history :
   /\ dump_lines (run ops empty) = [(Some (of_string "typing"), [(of_string "List", None)])].
 Proof. vm_compute. split; reflexivity. Qed.
 
+(* annotations and imports of one IR tree agree: for every type tree whose own names are not container
+   names and every one of the 8 spellings, each typing / collections name the rendered annotation uses
+   (List / Sequence / Set / FrozenSet / Dict / Mapping, Union, Literal) is among the imports the same
+   tree yields.  The container names per spelling are a table reflected from the real DataType.imports
+   on this run (table_ok: what is imported is what the annotation prints, or the name is a builtin).
+   Optional is added at field level and is not part of this statement (known finding C02-optional-import). *)
+Theorem C02_import_table_ok : table_ok hint_import_table = true.
+Proof. vm_compute. reflexivity. Qed.
+Theorem C02_hint_names_imported :
+  forall o t, clean_dt t = true -> forall n, In n (needs o (type_hint o t)) -> In n (imports_of hint_import_table o t).
+Proof. exact (hint_names_imported_all hint_import_table C02_import_table_ok). Qed.
+Example C02_hint_names_nonvacuous :
+  let t := DT None [DT (Some (of_string "int")) [] [] None false CSet; DT None [] [LStr (of_string "a")] None true CNone] [] None false CList in
+  let o := {| uo := false; sc := true; gc := true |} in
+  clean_dt t = true /\ needs o (type_hint o t) <> [].
+Proof. vm_compute. split; [reflexivity|discriminate]. Qed.
+
 Print Assumptions C02_imports_invariant.
 Print Assumptions C02_no_empty_import_line.
 Print Assumptions C02_counted_is_listed.
+Print Assumptions C02_import_table_ok.
+Print Assumptions C02_hint_names_imported.
